@@ -167,7 +167,7 @@ func TestC08Rapid(t *testing.T) {
 			rt.Fatalf("C08 violated at step %d: %v\nhistory:\n%s", i, err, strings.Join(w.log, "\n"))
 		}
 		repeatSteps(rt, 50, func(i int) {
-			op := drawWeighted(rt, "op", []weighted{{"deposit", 7}, {"relay", 7}, {"withdraw", 6}, {"transfer", 2}, {"cut", 4}, {"advance", 4}, {"claim", 6}, {"challenge", 2}, {"dup-relay", 2}, {"neighbour", 2}})
+			op := drawWeighted(rt, "op", []weighted{{"deposit", 7}, {"relay", 7}, {"withdraw", 6}, {"transfer", 2}, {"cut", 4}, {"advance", 4}, {"claim", 6}, {"challenge", 2}, {"dup-relay", 2}, {"neighbour", 2}, {"reverted-relay", 2}})
 			switch op {
 			case "neighbour":
 				// ordinary life on another bridge of the same L1 (outputs proposed, one challenged)
@@ -188,6 +188,9 @@ func TestC08Rapid(t *testing.T) {
 				kind := ""
 				d := rapid.SampledFrom(w.denoms).Draw(rt, "denom")
 				amt := int64(rapid.IntRange(0, 100000).Draw(rt, "amt"))
+				if rapid.IntRange(0, 14).Draw(rt, "zeroAmt") == 0 {
+					amt = 0 // L1 accepts deposits of nothing (they carry a hook or create the account)
+				}
 				if hk := rapid.IntRange(0, 12).Draw(rt, "hook"); hk < 9 && to == recipient.Str {
 					num, seq := accInfo(tc.l2, recipient)
 					l2d := tcL2Denom(tc, d)
@@ -238,9 +241,24 @@ func TestC08Rapid(t *testing.T) {
 				if !r.OK() {
 					fail(i, fmt.Errorf("faithful relay of deposit #%d failed on L2: %v", p.Seq, r.Err))
 				}
+				if resp, ok := r.Resp.(*opchildtypes.MsgFinalizeTokenDepositResponse); ok && resp.Result == opchildtypes.NOOP {
+					fail(i, fmt.Errorf("faithful in-order relay of deposit #%d was answered NOOP (nothing minted, nothing refunded): the deposit is lost", p.Seq))
+				}
 				w.pending = w.pending[1:]
 				w.relayed = append(w.relayed, p)
 				w.logf("relay deposit #%d (%s%s to %q) -> refunds so far %d", p.Seq, p.Amount, p.L1Denom, truncStr(p.To, 16), w.refunds)
+			case "reverted-relay":
+				// the executor's transaction with the next relay is executed and then rolled back as a whole (a later
+				// message of it failed, it ran out of gas, it was only simulated): nothing of it counts
+				if len(w.pending) == 0 {
+					return
+				}
+				p := w.pending[0]
+				branchL2(tc.l2, func(b *henv.L2) {
+					r := b.Deliver(relayMsg(tc.executors[0].Str, p))
+					w.logf("relay of #%d inside a transaction that is rolled back -> %v", p.Seq, r.Err)
+				})
+				c.Class("relay-inside-a-rolled-back-transaction")
 			case "dup-relay":
 				// duplicates and out-of-order deliveries must not move value
 				var p *pendingDeposit
